@@ -81,6 +81,7 @@ type Unit struct {
 	allocTypes map[int]types.Type
 	randomUUID map[Val]bool
 	strLenKnown map[string]bool
+	strLitKnown map[string]bool
 	allocPC    map[int]Term
 	objinvDone map[string]bool
 	globalAxioms []string
@@ -1770,7 +1771,7 @@ func (u *Unit) execBlock(fr *Frame, b *ssa.BasicBlock, st *State, deliver func(f
 			*exits = append(*exits, exitRec{st, ret})
 			return
 		case *ssa.Panic:
-			u.oblige("nopanic.explicit", []string{"C13"}, "", st.pc, TFalse, u.eng.pos(x.Pos()), "explicit panic reachable")
+			u.oblige("nopanic.explicit", u.panicProps(), "", st.pc, TFalse, u.eng.pos(x.Pos()), "explicit panic reachable")
 			return
 		default:
 			u.execInstr(fr, st, in)
